@@ -27,3 +27,43 @@ Definition read_u32_le (b : bytes) : res N :=
 (* slice::chunks(n).take(k) *)
 Definition chunks_take (n k : N) (b : bytes) : list bytes :=
   firstn (N.to_nat k) (chunks (N.to_nat n) b).
+
+(* ---- for the client's ResponseHandler (src/bin/roughenough-client.rs) ---- *)
+Require Import RV.Model.Merkle RV.Model.Keys RV.Model.Sign RV.Model.Client.
+
+(* map[&Tag::X] on a HashMap: panics when the key is missing *)
+Definition idx_p (site : nat) (m : msg) (t : tag) : res bytes :=
+  match get_field m t with Some v => Ok v | None => Panic site end.
+
+(* Result::unwrap / expect: an error becomes a panic *)
+Definition unwrap_p {A} (site : nat) (x : res A) : res A :=
+  match x with Ok a => Ok a | Err _ => Panic site | Panic s => Panic s end.
+
+(* value.as_slice().read_uN::<LittleEndian>() : Err on a short read (the caller unwraps) *)
+Definition read_u64_e (b : bytes) : res N :=
+  if (length b <? 8)%nat then Err MessageTooShort else Ok (rd64 b).
+Definition read_u32_e (b : bytes) : res N :=
+  if (length b <? 4)%nat then Err MessageTooShort else Ok (rd32 b).
+
+(* struct ResponseHandler, fields in declaration order *)
+Record rh := mkrh {
+  rh_pub_key : option bytes; rh_msg : msg; rh_srep : msg; rh_cert : msg; rh_dele : msg;
+  rh_nonce : bytes; rh_request : bytes; rh_version : version }.
+
+(* struct ParsedResponse { verified, midpoint, radius } *)
+Record parsed3 := mkparsed3 { p3_verified : bool; p3_midpoint : N; p3_radius : N }.
+
+(* MerkleTree::new(version).root_from_paths(index, leaf, paths): panics on a ragged path *)
+Definition root_from_paths_p (H : bytes -> bytes) (v : version) (index : N) (leaf paths : bytes) : res bytes :=
+  match root_from_paths H v index leaf paths with
+  | Ok h => Ok h
+  | Err _ => Panic site_gen
+  | Panic s => Panic s
+  end.
+
+(* self.validate_sig(pk, sig, data): MsgVerifier::new(pk); update(data); verify(sig) — the model of
+   src/sign.rs's verifier (C13), which panics on a key that is not a curve point / a signature that
+   is not 64 bytes *)
+Definition validate_sig_p (ed_verify : bytes -> bytes -> bytes -> bool) (ed_point : bytes -> bool)
+           (pk sig data : bytes) : res bool :=
+  validate_sig ed_verify ed_point pk sig data.
